@@ -180,7 +180,8 @@ def check(prog: Program, tier: str) -> Result:
             "interprocedural safe-text summary 'returns its argument or a validated text'); (R3.4) the validity oracle "
             "returns True only after ast.parse of its argument succeeded. R3.3 enumerates which pipeline stages have the "
             "safe-text summary and which are direct editors (reported, not judged). (R3.5) position-based splices applied in a loop "
-            "to the text they were computed for run back to front (descending sort by the position the splice uses). Not decided: that direct editors "
+            "to the text they were computed for run back to front (descending sort by the position the splice uses). (R3.6) a line inserted at an "
+            "index found by prefix tests on the lines (not from the syntax tree) is only returned validated. Not decided: that direct editors "
             "and layout stages produce parsable text (a runtime property of text)."),
         rule_text=("instances = return statements of the anchor back-ends, write sites of the file entry points, return "
                    "statements of is_valid_python, calls of rule functions in the pipeline; an instance is non-trivial "
@@ -283,9 +284,57 @@ def check(prog: Program, tier: str) -> Result:
             _write_obligation(res, prog, st, fn, pa, site, written)
     res.floors["R3.2"] = 2
     _r3_5(prog, res)
+    _r3_6(prog, res, st)
     res.analysed.update({"anchor_functions": [f.fq for f in anchors], "pipeline_stages": len(pipeline_fns),
                          "safe_text_summaries": {f"{k[0]}.{k[1]}": v for k, v in sorted(st.summary.items())}})
     return res
+
+
+def _r3_6(prog: Program, res: Result, st) -> None:
+    """Inserting a line into the module text at an index found by looking at the TEXT of the lines (prefix tests such
+    as `not line.startswith('#')`) can land inside a statement that spans several lines (a parenthesised import, a
+    docstring, a bracketed expression): the result no longer parses.  Instance: `L.insert(i, text)` on the list of
+    lines of the module text where i is computed from line prefixes and not from node positions.  Obligation: the
+    function validates what it returns (safe-text summary) - otherwise the broken text is handed to the next stage."""
+    from ..defuse import bindings
+    n = 0
+    for fn in prog.funcs.values():
+        binds = bindings(fn)
+        def _is_line_split(v) -> bool:
+            if isinstance(v, (ast.ListComp, ast.GeneratorExp)) and v.generators:
+                return _is_line_split(v.generators[0].iter)       # [line.rstrip() for line in split_lines(text)]
+            return isinstance(v, ast.Call) and ((isinstance(v.func, ast.Attribute) and v.func.attr == "splitlines")
+                                                or norm(v.func).endswith("split_lines")
+                                                or (isinstance(v.func, ast.Name) and v.func.id in ("list", "tuple") and bool(v.args) and _is_line_split(v.args[0])))
+        line_lists = {name for name, defs in binds.items() for _s, v in defs if v is not None and _is_line_split(v)}
+        if not line_lists:
+            continue
+        for c in prog.calls_in(fn):
+            if not (isinstance(c.func, ast.Attribute) and c.func.attr == "insert" and isinstance(c.func.value, ast.Name) and c.func.value.id in line_lists and len(c.args) == 2):
+                continue
+            idx = c.args[0]
+            texts = [norm(idx)]
+            for x in ast.walk(idx):
+                if isinstance(x, ast.Name):
+                    texts.extend(norm(v) for _s, v in binds.get(x.id, []) if v is not None)
+            blob = " ".join(texts)
+            from_text = any(k in blob for k in (".startswith(", ".endswith(", "re.match(", "re.search(", ".strip()", ".lstrip()"))
+            from_tree = any(k in blob for k in (".lineno", ".end_lineno", "get_charnos(", "charno"))
+            if not from_text or from_tree:
+                continue
+            n += 1
+            try:
+                st.solve([fn])
+            except Exception:
+                pass
+            summary = st.summary.get(fn.key)
+            ok = summary in ("SAFE", "VALID", "PARAM")
+            res.decide(ok, "R3.6", fn.loc(c), fn.fq, short(c, 70),
+                       "the function only returns its input or a validated text" if ok else
+                       f"the insertion index is found by prefix tests on the lines ({short(idx, 30)}), not from the syntax tree, and the result is returned "
+                       f"unvalidated (summary {summary}): with a statement in front that spans several lines (a parenthesised __future__ import, a docstring "
+                       "sharing its line with a bracketed expression) the new line lands in its middle and the next stage raises SyntaxError")
+    res.analysed["line_insertions_by_text_heuristics"] = n
 
 
 def _r3_5(prog: Program, res: Result) -> None:
@@ -605,6 +654,9 @@ def _sub_summary(prog: Program, st: SafeText) -> str:
 from ..selftest import Variant  # noqa: E402
 
 VARIANTS = [
+    Variant("import-insertion-line-from-line-prefixes", "FIRE", "fixes",
+            "    lineno = len(lines)\n    last_skipped_lineno = 0\n    for i, node in enumerate(core.parse(source).body):\n        is_docstring = i == 0 and core.match_template(node, ast.Expr(value=ast.Constant(value=str)))\n        is_future_import = isinstance(node, ast.ImportFrom) and node.module == \"__future__\"\n        if is_docstring or is_future_import:\n            last_skipped_lineno = node.end_lineno\n            continue\n\n        # If it shares its first line with e.g. the docstring, it is better to go after it\n        lineno = node.lineno - 1 if node.lineno > last_skipped_lineno else node.end_lineno\n        break\n    else:\n        lineno = last_skipped_lineno\n",
+            "    lineno = next(i for i, line in enumerate(lines) if not line.startswith(\"#\") and not line.startswith(\"from __future__ import\"))\n", "R3.6"),
     Variant("alter-code-actions-applied-top-down", "FIRE", "processing",
             "    for *_, action, _, value in sorted(actions, reverse=True):", "    for *_, action, _, value in sorted(actions):", "R3.5"),
     Variant("insertions-applied-top-down", "FIRE", "processing",
